@@ -9,9 +9,11 @@ parsec/utils/cmd_line.c), both written branch by branch after the C code.  Strin
 fields of `s` separated by `d`, empty ones kept; `sjoin d l` = the strings of `l` with one `d`
 between neighbours.  Quantification: all strings, delimiters, vectors, positions, option tables.
 
-Three statements the property asks for are FALSE of the code as it is; each is kept as a
-`def … : Prop`, refuted by a witness (`*_full_false` / `*_witness`), and the part that does hold is
-the `*_partial` theorem.
+Three statements the property asks for were FALSE of the code as found (split_with_empty lost a
+trailing empty field, delete left argc inconsistent, parse freed a parameter vector twice); they
+were repaired in /repo (8e71ed6, ecccfcb, 16257ae).  The models mirror the repaired code and the
+full statements are theorems; the previous behaviour is kept as `*Buggy` definitions together
+with the witness theorems that refute the statements for it.
 -/
 namespace ParsecVerif.C39
 open ParsecVerif.Argv ParsecVerif.CmdLine
@@ -50,50 +52,53 @@ theorem join_split (v : List Str) (d : Nat) (h : ∀ f ∈ v, f ≠ [] ∧ d ∉
 example : split (join (some [[97, 98], [99]]) 44) 44 = some [[97, 98], [99]] := by
   rw [join_split _ _ (by decide)]; rfl
 
-/-- `parsec_argv_split_with_empty` returns the fields without a trailing empty one, so joining them
-    back loses one trailing delimiter: this is the exact value for every string. -/
+/-- `parsec_argv_split_with_empty` returns all fields (NULL for the empty string), and joining them
+    back gives the original string — for every string. -/
 theorem splitWithEmpty_join (s : Str) (d : Nat) :
-    splitWithEmpty s d = ofList (dropLastEmpty (fields d s)) ∧
-    join (splitWithEmpty s d) d = if s.getLast? = some d then s.dropLast else s := by
+    splitWithEmpty s d = ofList (if s = [] then [] else fields d s) ∧
+    join (splitWithEmpty s d) d = s := by
   unfold splitWithEmpty
+  rw [splitInter_true_trailing, join_ofList]
+  refine ⟨rfl, ?_⟩
+  split
+  · rename_i h; subst h; rfl
+  · exact sjoin_fields d s
+
+example : splitWithEmpty [97, 44, 44, 98, 44] 44 = some [[97], [], [98], []] := by
+  rw [(splitWithEmpty_join _ _).1]; decide
+
+/-- conversely, every vector of delimiter-free strings other than `[""]` (whose join is the empty
+    string) survives join-then-split_with_empty -/
+theorem join_splitWithEmpty (v : List Str) (d : Nat) (h : ∀ f ∈ v, d ∉ f) (hv : v ≠ [[]]) :
+    splitWithEmpty (join (some v) d) d = ofList v := by
+  rw [(splitWithEmpty_join _ _).1, join_some]
+  by_cases hv0 : v = []
+  · subst hv0; rfl
+  · have hf := fields_sjoin d v hv0 h
+    split
+    · rename_i he
+      rw [he] at hf
+      exact absurd hf.symm hv
+    · rw [hf]
+
+example : splitWithEmpty (join (some [[], [97], [], []]) 44) 44 = some [[], [97], [], []] := by
+  rw [join_splitWithEmpty _ _ (by decide) (by decide)]; rfl
+
+/-- the code before 8e71ed6: joining lost one trailing delimiter (exact value for every string) -/
+theorem splitWithEmptyBuggy_join (s : Str) (d : Nat) :
+    splitWithEmptyBuggy s d = ofList (dropLastEmpty (fields d s)) ∧
+    join (splitWithEmptyBuggy s d) d = if s.getLast? = some d then s.dropLast else s := by
+  unfold splitWithEmptyBuggy
   rw [splitInter_true, join_ofList, sjoin_dropLastEmpty_fields]
   exact ⟨rfl, rfl⟩
 
-/-- the round trip the property asks for, for strings that do not end with the delimiter -/
-theorem splitWithEmpty_join_partial (s : Str) (d : Nat) (h : s.getLast? ≠ some d) :
-    join (splitWithEmpty s d) d = s := by
-  rw [(splitWithEmpty_join s d).2, if_neg h]
-
-example : join (splitWithEmpty [44, 97, 44, 44, 98] 44) 44 = [44, 97, 44, 44, 98] :=
-  splitWithEmpty_join_partial _ _ (by decide)
-
-/-- the full statement of the property for `split_with_empty` (empty fields are kept, so nothing
-    may be lost) -/
-def SplitWithEmptyRoundTrip : Prop := ∀ (s : Str) (d : Nat), join (splitWithEmpty s d) d = s
-
-/-- … is false of the code: `"a,,b,"` comes back as `"a,,b"` (finding C39-F1) -/
-theorem splitWithEmpty_join_full_false : ¬ SplitWithEmptyRoundTrip := by
+/-- … so the round trip failed: `"a,,b,"` came back as `"a,,b"` (finding C39-F1, fixed) -/
+theorem splitWithEmptyBuggy_loses_field :
+    ¬ ∀ (s : Str) (d : Nat), join (splitWithEmptyBuggy s d) d = s := by
   intro h
   have := h [97, 44, 44, 98, 44] 44
-  rw [(splitWithEmpty_join _ _).2] at this
+  rw [(splitWithEmptyBuggy_join _ _).2] at this
   revert this; decide
-
-/-- the witness as the code computes it: three fields, the last (empty) one is missing -/
-example : splitWithEmpty [97, 44, 44, 98, 44] 44 = some [[97], [], [98]] := by
-  rw [(splitWithEmpty_join _ _).1]; decide
-
-/-- conversely, a vector of delimiter-free strings that does not end with the empty string
-    survives join-then-split_with_empty -/
-theorem join_splitWithEmpty (v : List Str) (d : Nat) (h : ∀ f ∈ v, d ∉ f)
-    (hl : v.getLast? ≠ some []) : splitWithEmpty (join (some v) d) d = ofList v := by
-  unfold splitWithEmpty
-  rw [splitInter_true, join_some]
-  by_cases hv : v = []
-  · subst hv; rfl
-  · rw [fields_sjoin d v hv h, dropLastEmpty_of_last v hl]
-
-example : splitWithEmpty (join (some [[], [97], [], [98]]) 44) 44 = some [[], [97], [], [98]] := by
-  rw [join_splitWithEmpty _ _ (by decide) (by decide)]; rfl
 
 /-- `parsec_argv_join` is `sjoin`; `parsec_argv_join_range` joins exactly the positions
     `[start, end)` that exist -/
@@ -117,18 +122,22 @@ example : joinRange (some [[97], [98], [99], [100]]) 1 3 44 = [98, 44, 99] := by
 
 /-- `parsec_argv_delete` on an in-range start with a positive count: the vector loses exactly the
     positions `[start, start+num) ∩ [0, count)`; everything before keeps its index, everything
-    behind moves down by `num`.  `argc` is decremented by `num`. -/
+    behind moves down by `num`; `argc` becomes the new element count. -/
 theorem delete_spec (argc : Int) (l : List Str) (start num : Nat) (hs : start ≤ l.length)
     (hn : 0 < num) :
-    ∃ r, delete argc (some l) start num = (SUCCESS, argc - num, some r) ∧
+    ∃ r, delete argc (some l) start num = (SUCCESS, (r.length : Int), some r) ∧
       r = l.take start ++ l.drop (start + num) ∧
       r.length = l.length - min num (l.length - start) ∧
       (∀ i, i < start → r[i]? = l[i]?) ∧ (∀ i, start ≤ i → r[i]? = l[i + num]?) := by
-  refine ⟨l.take start ++ l.drop (start + num), ?_, rfl, cut_positions l start num hs⟩
+  have hc := cut_positions l start num hs
+  refine ⟨l.take start ++ l.drop (start + num), ?_, rfl, hc⟩
   have h1 : ¬ ((num : Int) = 0) := by omega
   have h2 : ¬ ((start : Int) > count (some l)) := by simp only [count]; omega
   have h3 : ¬ ((start : Int) < 0 ∨ (num : Int) < 0) := by omega
   simp only [delete, if_neg h1, if_neg h2, if_neg h3, Int.toNat_natCast, deleteList_eq]
+  rw [hc.1]
+  congr 2
+  omega
 
 example : delete 4 (some [[97], [98], [99], [100]]) 1 2 = (0, 2, some [[97], [100]]) := by
   obtain ⟨r, h, hr, _⟩ := delete_spec 4 [[97], [98], [99], [100]] 1 2 (by decide) (by decide)
@@ -159,30 +168,42 @@ theorem delete_noop (argc : Int) (v : Vec) (start num : Int)
           · exact absurd (Or.inl h) h3
           · exact absurd (Or.inr h) h3
 
-/-- `argc` stays the element count when the deleted range lies inside the vector -/
-theorem delete_argc_partial (l : List Str) (start num : Nat) (hn : 0 < num)
-    (h : start + num ≤ l.length) :
-    (delete l.length (some l) start num).2.1 = count (delete l.length (some l) start num).2.2 := by
-  obtain ⟨r, hd, _, hl, _⟩ := delete_spec l.length l start num (by omega) hn
-  rw [hd]
-  simp only [count, hl]
-  omega
+/-- **`argc` stays the element count, for every call** (any vector, any integers) -/
+theorem delete_argc (v : Vec) (start num : Int) :
+    (delete (count v) v start num).2.1 = count (delete (count v) v start num).2.2 := by
+  by_cases h : v = none ∨ num = 0 ∨ start > count v ∨ start < 0 ∨ num < 0
+  · rw [(delete_noop (count v) v start num h).1]
+  · cases v with
+    | none => simp at h
+    | some l =>
+      have hs : 0 ≤ start ∧ start ≤ (l.length : Int) ∧ 0 < num := by
+        simp only [count] at h; omega
+      obtain ⟨r, hd, _⟩ := delete_spec (count (some l)) l start.toNat num.toNat (by omega) (by omega)
+      rw [Int.toNat_of_nonneg hs.1, Int.toNat_of_nonneg (by omega)] at hd
+      rw [hd]; rfl
 
-example : (delete 3 (some [[97], [98], [99]]) 1 2).2.1 = count (delete 3 (some [[97], [98], [99]]) 1 2).2.2 :=
-  delete_argc_partial [[97], [98], [99]] 1 2 (by decide) (by decide)
+example : (delete 3 (some [[97], [98], [99]]) 1 5) = (0, 1, some [[97]]) := by decide
 
-/-- the full statement: after any accepted delete, `argc` is the element count -/
-def DeleteArgcConsistent : Prop :=
-  ∀ (l : List Str) (start num : Nat), start ≤ l.length → 0 < num →
-    (delete l.length (some l) start num).2.1 = count (delete l.length (some l) start num).2.2
+/-- the code before ecccfcb on an accepted call: same vector, but `argc - num` -/
+theorem deleteBuggy_spec (argc : Int) (l : List Str) (start num : Nat) (hs : start ≤ l.length)
+    (hn : 0 < num) :
+    deleteBuggy argc (some l) start num =
+      (SUCCESS, argc - num, some (l.take start ++ l.drop (start + num))) := by
+  have h1 : ¬ ((num : Int) = 0) := by omega
+  have h2 : ¬ ((start : Int) > count (some l)) := by simp only [count]; omega
+  have h3 : ¬ ((start : Int) < 0 ∨ (num : Int) < 0) := by omega
+  simp only [deleteBuggy, if_neg h1, if_neg h2, if_neg h3, Int.toNat_natCast, deleteList_eq]
 
-/-- … is false of the code: deleting 5 from position 1 of 3 elements leaves 1 element and
-    `argc = -2` (finding C39-F2) -/
-theorem delete_argc_full_false : ¬ DeleteArgcConsistent := by
+/-- … so `argc` went wrong as soon as the range ran past the end: deleting 5 from position 1 of
+    3 elements left 1 element and `argc = -2` (finding C39-F2, fixed) -/
+theorem deleteBuggy_argc_inconsistent :
+    ¬ ∀ (v : Vec) (start num : Int),
+      (deleteBuggy (count v) v start num).2.1 = count (deleteBuggy (count v) v start num).2.2 := by
   intro h
-  have := h [[97], [98], [99]] 1 5 (by decide) (by decide)
-  obtain ⟨r, hd, hr, _⟩ := delete_spec (([[97], [98], [99]] : List Str).length) [[97], [98], [99]] 1 5 (by decide) (by decide)
-  rw [hd, hr] at this
+  have := h (some [[97], [98], [99]]) 1 5
+  have hb := deleteBuggy_spec (count (some [[97], [98], [99]])) [[97], [98], [99]] 1 5 (by decide) (by decide)
+  rw [show ((1 : Nat) : Int) = 1 from rfl, show ((5 : Nat) : Int) = 5 from rfl] at hb
+  rw [hb] at this
   revert this; decide
 
 /-- `parsec_argv_insert` with a valid target and source: the source is spliced in at position
@@ -293,7 +314,7 @@ theorem parse_wellformed (opts : List Opt) (ign : Bool) (prog : Str) (items : Li
         params := items.map (fun it => (it.k, it.ps)),
         tail := e.tail } := by
   simp only [parse]
-  rw [parseLoop_wellformed opts ign items e h he _ [prog] [] ?_]
+  rw [parseLoop_wellformed true opts ign items e h he _ [prog] [] ?_]
   · simp
   · have h1 := fuelFor_ge (render items ++ e.toks)
     have h2 := render_length items
@@ -362,13 +383,13 @@ theorem parse_queries (opts : List Opt) (ign : Bool) (prog : Str) (items : List 
     as if the expanded tokens `sv` (followed by the tokens that were not consumed as parameters)
     had been on the line; when every letter is a declared short name and enough tokens follow,
     `sv` is `-c₁ params₁ -c₂ params₂ …` (`expand`). -/
-theorem parse_bundle (opts : List Opt) (ign : Bool) (fuel : Nat) (pre : List Str) (cs : List Nat)
+theorem parse_bundle (nulled : Bool) (opts : List Opt) (ign : Bool) (fuel : Nat) (pre : List Str) (cs : List Nat)
     (more : List Str) (params : List Param) (hd : cs.head? ≠ some dash)
     (hnf : find opts cs = none) :
     (∀ sv used, splitShorts opts ign cs more = some (sv, used) →
       (find opts ((sv.headD []).drop 1)).isSome →
-      parseLoop opts ign (fuel + 1) pre ((dash :: cs) :: more) params =
-        parseLoop opts ign (fuel + 1) pre (sv ++ more.drop used) params) ∧
+      parseLoop nulled opts ign (fuel + 1) pre ((dash :: cs) :: more) params =
+        parseLoop nulled opts ign (fuel + 1) pre (sv ++ more.drop used) params) ∧
     (∀ n, cs ≠ [] → need opts cs = some n → n ≤ more.length →
       ∃ sv, splitShorts opts ign cs more = some (sv, n) ∧
         sv ++ more.drop n = expand opts cs more) := by
@@ -398,14 +419,14 @@ theorem parse_bundle (opts : List Opt) (ign : Bool) (fuel : Nat) (pre : List Str
     have u2 : ¬ (([dash, c] : Str).head? ≠ some dash) := by simp
     have u3 : ([dash, c] : Str).take 2 ≠ [dash, dash] := by
       intro e; simp only [List.take_succ_cons, List.take_zero, List.cons.injEq] at e; exact hc e.2.1
-    have lhs : step opts ign pre (dash :: c :: cs') more params =
-        handle pre params k o (([dash, c] :: sv') ++ more.drop used) := by
+    have lhs : step nulled opts ign pre (dash :: c :: cs') more params =
+        handle nulled pre params k o (([dash, c] :: sv') ++ more.drop used) := by
       unfold step
       rw [if_neg t1, if_neg t2, if_neg t3]
       simp only [List.drop_succ_cons, List.drop_zero, hnf, splitShorts, if_neg hcs, hs,
         List.headD_cons, hko]
-    have rhs : step opts ign pre [dash, c] (sv' ++ more.drop used) params =
-        handle pre params k o (([dash, c] :: sv') ++ more.drop used) := by
+    have rhs : step nulled opts ign pre [dash, c] (sv' ++ more.drop used) params =
+        handle nulled pre params k o (([dash, c] :: sv') ++ more.drop used) := by
       unfold step
       rw [if_neg u1, if_neg u2, if_neg u3]
       simp only [List.drop_succ_cons, List.drop_zero, hko, List.cons_append]
@@ -425,18 +446,27 @@ example :
       [(0, [[112]]), (1, [[113], [114]])] := by
   decide
 
-/-- the full statement for the error path of the parameter loop: no parse frees the parameter
-    vector of an option instance twice -/
-def ParseNoDoubleFree : Prop :=
-  ∀ (opts : List Opt) (ign : Bool) (argv : List Str), (parse opts ign argv).doubleFree = false
+/-- **No parse frees the parameter vector of an option instance twice** (every option table,
+    every argument vector, well-formed or not). -/
+theorem parse_no_double_free (opts : List Opt) (ign : Bool) (argv : List Str) :
+    (parse opts ign argv).doubleFree = false := by
+  cases argv with
+  | nil => rfl
+  | cons prog rest => exact parseLoop_no_double_free opts ign _ _ _ _
 
-/-- … is false of the code: option `-b` with two parameters and the line `prog -bb p1`.  The
+/-- the code before 16257ae did: option `-b` with two parameters and the line `prog -bb p1`.  The
     bundle expands to `-b p1 ⟨special⟩ -b ⟨special⟩ ⟨special⟩`; the first `-b` saves `p1`, meets the
-    special token, frees `clp_argv` and releases the instance, whose destructor frees it again
-    (finding C39-F3).  `parse_wellformed` shows that well-formed lines never take this path. -/
-theorem parse_double_free_witness : ¬ ParseNoDoubleFree := by
+    special token, frees `clp_argv` and releases the instance, whose destructor freed it again
+    (finding C39-F3, fixed) -/
+theorem parseBuggy_double_free_witness :
+    ¬ ∀ (opts : List Opt) (ign : Bool) (argv : List Str), (parseBuggy opts ign argv).doubleFree = false := by
   intro h
   have := h [⟨some 98, none, none, 2⟩] false [[112], [45, 98, 98], [112, 49]]
   revert this; decide
+
+/-- the repaired parser on the same line: error, nothing freed twice -/
+example : (parse [⟨some 98, none, none, 2⟩] false [[112], [45, 98, 98], [112, 49]]).rc = ERROR ∧
+    (parse [⟨some 98, none, none, 2⟩] false [[112], [45, 98, 98], [112, 49]]).doubleFree = false := by
+  decide
 
 end ParsecVerif.C39
